@@ -208,8 +208,11 @@ func Worker(raw json.RawMessage) any {
 		return TaskResult{HarnessErr: err.Error()}
 	}
 	judge := Linearizable
-	if t.Judge == "block" {
+	switch t.Judge {
+	case "block":
 		judge = JudgeBlocking
+	case "index":
+		judge = JudgeIndexFiles
 	}
 	return Explore(t, judge)
 }
